@@ -9,6 +9,7 @@ mod rdf;
 mod conc;
 mod lpg;
 mod adj;
+mod snap;
 mod q;
 mod qmeta;
 mod txstress;
@@ -32,6 +33,8 @@ fn main() {
         "conc" => conc::main(&opts),
         "lpg" => lpg::main(&opts),
         "adj" => adj::main(&opts),
+        "snap" => snap::fidelity(&opts),
+        "snapfault" => snap::faults(&opts),
         "q" => q::main(&opts),
         "qprobe" => q::probe(&opts),
         "qmeta" => qmeta::main(&opts),
